@@ -61,6 +61,7 @@ Relations == {"same", "default", "absent", "other", "n/a"}
 (* reject fact   [section, field, class, rejects, represented, load,       *)
 (*                asdefault, panic]                                        *)
 (* hidden fact   [section, setting, tokens, injected, shown, scope]        *)
+(* subset fact   [family, section, registered, outcome, kept, panic]       *)
 (***************************************************************************)
 DefaultValid(f) == ~f.panic /\ ~f.err /\ f.valid
 
@@ -118,6 +119,13 @@ SecretByName(tokens) ==
     \/ {"private", "key"} \subseteq T
 IsSecret(f) == <<f.section, f.setting>> \in StatedSecrets \/ SecretByName(f.tokens)
 Hidden(f) == (IsSecret(f) /\ f.injected) => ~f.shown
+
+\* subset fact [family, section, registered, outcome, kept, panic]: a full configuration file loaded by a Manager
+\* that registers only the components of `family` (as the binaries do).  Such a Manager must load the file, must
+\* not crash, and its ToJSON must still carry every section it does not know, unchanged (no loss on save).
+\* The Hidden law applies to its display form for the secrets of EVERY section, registered or not
+\* (hidden facts with scope "subset:<family>").
+Preserved(f) == ~f.panic /\ f.outcome = "accepted" /\ (~f.registered => f.kept)
 
 (***************************************************************************)
 (* Abstract loader (the model ConfigMC checks the laws on).                *)
